@@ -125,7 +125,10 @@ Check(m, e) ==
          ELSE IF FullyFrozen(m, e) /\ m.frozenRun >= 1 /\ m.pos # -1 /\ e.pos # m.pos THEN "position_frozen"
          \* a sound that reports Playing plays: its position moves on from one callback to the next (every session here
          \* plays at rate 1; a starved stream has nothing to play)
+         \* (not once a finite sound has played its last frame: it may report Playing a callback or two longer while the
+         \*  interpolator's window drains, with the position standing at the end)
          ELSE IF ~m.starved /\ m.lastState = "Playing" /\ e.state = "Playing" /\ m.pos # -1 /\ e.pos = m.pos /\ m.pend = <<>>
+                 /\ ~(m.finite /\ e.pos + e.n >= m.len)
               THEN "advances_while_playing"
          ELSE IF m.stoppedSeen /\ e.nsounds # 0 THEN "unloaded_at_next_callback"
          ELSE IF m.finite /\ ~m.held /\ e.state # "Stopped" /\ m.adv * e.n > m.len + 4 * e.n THEN "finite_sound_reaches_stopped"
